@@ -117,28 +117,7 @@ def as_text(data):
     return data.decode("latin-1").replace("\r\n", "\n").replace("\r", "\n")
 
 
-def classify_first_record(fmt, text, ref_orig):
-    """the same three classes for what a single-structure loader consumes: the first record only (an
-    xyz frame as long as its own count line says; a mol2 block up to the next MOLECULE record)"""
-    lines = text.split("\n")
-    try:
-        if fmt == "xyz":
-            t = lines[0].split() if lines else []
-            if len(t) != 1 or not T.is_int(t[0]) or int(t[0]) < 0:
-                return "damaged"
-            n = int(t[0]) + 2
-            if len(lines) < n:
-                return "damaged"
-            r = T.ref_xyz("\n".join(lines[:n]))
-        else:
-            starts = [i for i, l in enumerate(lines) if l.strip().startswith("@<TRIPOS>MOLECULE")]
-            end = starts[1] if len(starts) > 1 else len(lines)
-            r = T.ref_mol2("\n".join(lines[:end]))
-    except T.Illformed:
-        return "damaged"
-    if len(r) != 1:
-        return "damaged"
-    return "benign" if r[0] in ref_orig else "different"
+classify_first_record = T.classify_first_record
 
 
 class ByteBase:
